@@ -161,9 +161,8 @@ impl<D: DataT, E: FromBoxError> MultipartStream<D, E> {
     //@ | this.state == old(self).state || (this.state == old(self).state + 1 && this.state % 2 == 0 && this.cur.is_none()),
     //@ | old(self).terminal() ==> this.terminal(),
     //@ | decreases 2 * this.ranges@.len() + 1 - this.state, (if this.cur.is_some() { 0int } else { 1int }),
-    //@ after "loop {": proof { lemma_bits(this.state); lemma_bits(this.ranges.len()); lemma_rest_nonneg(this.part_headers@, this.ranges@, (this.state / 2) as int + 1); lemma_rest_nonneg(this.part_headers@, this.ranges@, (this.state / 2) as int); } let ghost pre = *this;
+    //@ after "loop {": proof { lemma_bits(this.state); lemma_bits(this.ranges.len()); lemma_rest_nonneg(this.part_headers@, this.ranges@, (this.state / 2) as int + 1); lemma_rest_nonneg(this.part_headers@, this.ranges@, (this.state / 2) as int); } let ghost pre = *this; let ghost ph0 = this.part_headers@;
     //@ before "let i = this.state >> 1;": proof { lemma_bits(this.state); lemma_rest_nonneg(this.part_headers@, this.ranges@, (this.state / 2) as int + 1); lemma_rest_nonneg(this.part_headers@, this.ranges@, (this.state / 2) as int); }
-    //@ before "let v = std::mem::take(": let ghost ph0 = this.part_headers@;
     //@ before "this.state += 1;" #3: proof { lemma_rest_frame(ph0, this.part_headers@, this.ranges@, i as int + 1); lemma_rest_nonneg(ph0, this.ranges@, i as int + 1); }
     //@end
 }
